@@ -160,6 +160,36 @@ theorem public_api_is_declarative_matcher (ropts : List RunOpt) (ops : List ApiO
   have hrep : Rep pr.core tbl := by rw [hcore]; exact r1
   refine ⟨h1, h3', hrep, r2, by rw [h3']; exact r3, monitor_sound hrep r2 m p⟩
 
+/-- **The clauses of the property, end to end through the public API** (call site `AddRoutes`/`AddRoute` with
+options → `featuredRoutes` → `engine.bindRoutes` → `patRouter.Handle` → `Tree.Add`; request → `ServeHTTP` →
+`Tree.Search`), for any history of calls, any iteration order of Go's maps, no hypothesis on the table.  With
+`tbl` = the routes the registration rule accepts from "options applied to a copy of the routes as written":
+(1) dispatch iff a route of the method matches the cleaned path; (2) the chosen route is admissible (literal
+before variable at the first differing segment) and the parameters are its bound segments; (3) 405 lists exactly
+the other methods with a matching route; (4) 404 iff no route of any method matches. -/
+theorem public_api_clauses (ops : List ApiOp) (m p : String) :
+    let a := ops.foldl Api.step {}
+    let tbl := (bindTable [] ((pureRun ops).2.flatMap Group.regs)).1
+    let r := (bindAll {} a.regs).1
+    ((∃ h ps, serve r m p = .handler h ps) ↔
+      (rooted p = true ∧ ∃ route ∈ tbl, route.method = m ∧ matchesP route.pats (cleanToks p) = true)) ∧
+    (∀ h ps, serve r m p = .handler h ps →
+      ∃ route ∈ admissible tbl m (cleanToks p), route.h = h ∧ ps = (binds route.pats (cleanToks p)).reverse) ∧
+    (∀ al, serve r m p = .notAllowed al →
+      candidates tbl m (cleanToks p) = [] ∧ al ≠ [] ∧ al.Nodup ∧
+      ∀ x, x ∈ al ↔ (x ≠ m ∧ ∃ route ∈ tbl, route.method = x ∧ matchesP route.pats (cleanToks p) = true)) ∧
+    (serve r m p = .notFound ↔
+      (rooted p = true → ∀ route ∈ tbl, matchesP route.pats (cleanToks p) = false)) := by
+  intro a tbl r
+  obtain ⟨_, _, h3⟩ := api_history_is_pure ops
+  obtain ⟨r1, r2, _⟩ := bindAll_represents ((pureRun ops).2.flatMap Group.regs) {} [] rep_empty.1 rep_empty.2
+  have hrep : Rep r tbl := by
+    show Rep (bindAll {} a.regs).1 _
+    have : a.regs = (pureRun ops).2.flatMap Group.regs := h3
+    rw [this]; exact r1
+  exact ⟨dispatch_iff_match hrep r2 m p, fun h ps hs => chosen_is_admissible hrep r2 hs,
+    fun al hs => status_405_allow_exact hrep r2 hs, status_404 hrep r2 m p⟩
+
 /-! non-vacuity: one slice added bare, under /v1 and under /v2 nested in /api, with WithJwt on one copy only -/
 
 def exOps : List ApiOp :=
@@ -175,6 +205,9 @@ example : (exOps.foldl Api.step {}).heap = [[("GET", "/users/:id", some 1), ("PO
   decide +kernel
 example : ((pureRun exOps).2.map fun g => g.featured.set.jwt) = [none, some ("secret-aaaa", ""), none] := by
   decide +kernel
+example : serve (bindAll {} (exOps.foldl Api.step {}).regs).1 "GET" "/api/v2/users/7/" = .handler 1 [("id", "7")] ∧
+    serve (bindAll {} (exOps.foldl Api.step {}).regs).1 "GET" "/users/7" = .notFound ∧
+    serve (bindAll {} (exOps.foldl Api.step {}).regs).1 "PUT" "/v1/users" = .notAllowed ["POST"] := by decide +kernel
 -- WithJwt after WithJwtTransition keeps the previous secret (as implemented: `WithJwt` does not reset it)
 example : (({ opts := [.jwtTransition "s1-------" "s0-------", .jwt "s2-------"] } : Group).featured.set.jwt) =
     some ("s2-------", "s0-------") := by decide
